@@ -437,6 +437,30 @@ const c08Rule = "legal call histories on concurrent Writers (concurrency 2,3,4,1
 	"sequential Writer's bytes for the same calls, decoded bytes equal the content, OnBlockDone counts add up. Non-trivial = >= 3 blocks in flight with concurrency >= 2 and at least one non-zero " +
 	"delay; distinct by hash(history, schedule)."
 
+// TestC08Pinned: configurations the random campaign reaches too rarely (multi-megabyte blocks).
+func TestC08Pinned(t *testing.T) {
+	bubbleT = t
+	rec := stat.For("C08")
+	rec.SetRule(c08Rule)
+	if shard != 0 {
+		return
+	}
+	leg := defaultMOpts()
+	leg.BS, leg.Legacy = 4, true
+	big := defaultMOpts()
+	big.BS, big.BlockSum = 7, true
+	for _, conc := range []int{2, 4} {
+		for _, o := range []mOpts{leg, big} {
+			o.Conc = conc
+			// seeds divisible by 3 give incompressible data (see opData)
+			c := c08WCase{Opts: o, Ops: []wOp{{Op: "write", N: 17<<20 + 100, Seed: 3}, {Op: "close"}, {Op: "reset"}, {Op: "write", N: 9 << 20, Seed: 6}, {Op: "flush"}, {Op: "write", N: 8360000, Seed: 9}, {Op: "close"}},
+				Sched: []int{0, 50, 0, 500, 5}}
+			pinned(t, "C08", "C08/writer", c, runC08W)
+			rec.Class("writer/pinned-multi-megabyte-blocks")
+		}
+	}
+}
+
 func TestC08(t *testing.T) {
 	bubbleT = t
 	rec := stat.For("C08")
